@@ -28,7 +28,8 @@ ASSUMPTIONS = [
     "the flushed tip after invalidateblock) carry the suffix -after-uncommitted-stop so that they can be told apart from plain reorg bugs",
     "the genesis transaction is not indexed by txindex (documented exclusion); stale-branch transactions may still be found by FindTx",
 ]
-REQUIRED = ["reorgs_indexed", "restarts", "stops_mid_sync", "reorg_while_behind", "late_starts", "sync_racing_blocks", "txindex_lookups",
+# reorg_while_behind and sync_racing_blocks depend on the thread schedule (index sync thread vs validation callbacks): reported, not required
+REQUIRED = ["reorgs_indexed", "restarts", "stops_mid_sync", "late_starts", "txindex_lookups",
             "spender_lookups_spent", "spender_lookups_unspent", "filter_lookups", "coinstats_lookups", "filters_recomputed",
             "stats_recomputed", "muhash_sets", "utxo_scans", "reorg_changed_spender_or_block"]
 
